@@ -1996,22 +1996,23 @@ func ruleDriver(c *Ctx) {
 		var cv, initCall *ssa.Call
 		allInstrs(fn, func(i ssa.Instruction) {
 			if ci, ok := i.(*ssa.Call); ok {
-				if f := ci.Call.StaticCallee(); f != nil {
-					switch {
-					case f.Name() == "checkValid":
-						cv = ci
-					case f.Name() == "init" && recvTypeName(f) == "decodeState":
-						initCall = ci
-					}
+				if f := ci.Call.StaticCallee(); f != nil && f.Name() == "checkValid" {
+					cv = ci
 				}
 			}
 		})
+		// the call that hands the input on to (*decodeState).init: init itself or a codec helper
+		for _, ci := range b.initSites(fn, fn.Params[0]) {
+			if c2, ok := ci.(*ssa.Call); ok {
+				initCall = c2
+			}
+		}
 		if cv == nil || initCall == nil {
 			l.add("R-DRIVER", "codec", key, b.rel(fn.Pos()), Violated, "the checking entry point does not call checkValid before init", true)
 			continue
 		}
 		ok, why := b.successDominates(cv, initCall)
-		if cv.Call.Args[0] != ssa.Value(fn.Params[0]) || initCall.Call.Args[1] != ssa.Value(fn.Params[0]) {
+		if cv.Call.Args[0] != ssa.Value(fn.Params[0]) {
 			ok, why = false, "checkValid and init are not applied to the same input parameter"
 		}
 		v2 := Discharged
